@@ -201,7 +201,7 @@ def run(tier, seed):
     plan = [('S45', ('git', 'diff3', 'none')), ('Ssim', ('git',))] if tier == 'quick' else \
         [(s, ('git', 'diff3', 'none')) for s in ('S45', 'S44', 'Ssim', 'Sjson', 'Sv2', 'Sempty')]
     info = {}
-    plan = plan + [('S45#cellruns3', ('git',) if tier == 'quick' else ('git', 'diff3', 'none')), ('S45#focus:source', ('git', 'diff3', 'none'))]
+    plan = plan + [('S45#cellruns3', ('git',) if tier == 'quick' else ('git', 'diff3', 'none')), ('S45#focus:source', ('git', 'diff3', 'none')), ('S45#focus:cellmix0', ('git',)), ('S45#focus:cellmix2', ('git', 'none')), ('S45#lineruns3', ('git', 'none'))]
     for sname, tss in plan:
         _, d1 = M.depth1(sname)
         # only edits that can matter for source text are enumerated on the local side for Ssim in the quick tier
